@@ -267,6 +267,14 @@ theorem http_roundtrip (cfg : HttpCfg) (lim : Limits) (hb : 0 < lim.bufSize) (q 
     httpRun lim cfg hints segs = [(reqOutcome lim (q.head cfg) body).1] :=
   http_roundtrip_conn cfg lim hb q hq ls hw body hints segs hseg hclose
 
+/-- the embedded server's 16 KiB budget for a header section (`total_read_`) is **per request**: whatever the previous
+requests of a kept-alive connection made it count, the header phase of the next request starts at 0
+(`Gen.httpTotalReadResetPerRequest`: regenerated from the assignments to `total_read_` in `async_read_headers` /
+`reset_all`; `httpConn` carries the counter from request to request).  `keepalive_sequence_http`,
+`http_buffer_eq_stream` rest on it. -/
+theorem http_header_budget_per_request (cfg : HttpCfg) (t0 : Nat) (st : HttpSt) : httpNextTotal cfg t0 st = 0 :=
+  httpNextTotal_zero cfg t0 st
+
 /-- **HTTP keep-alive sequence**: well-formed requests sent back to back on one connection (each with its own
 folding, `Content-Length` = length of its body, answered by the application, `Connection: keep-alive` honoured),
 cut into segments anywhere — e.g. the end of one request and the start of the next in one segment — are each
